@@ -647,9 +647,19 @@ Error Message: {}
                 blob = self._get_session_blob(
                     key, service, username, algorithm
                 )
-                if not key.verify_ssh_sig(blob, sig):
-                    self._log(INFO, "Auth rejected: invalid signature")
+                # The signature must use the algorithm named in the request
+                # (minus any certificate suffix).
+                expected = algorithm.replace("-cert-v01@openssh.com", "")
+                if sig.get_binary() != expected.encode("utf8"):
+                    self._log(
+                        INFO, "Auth rejected: signature algorithm mismatch"
+                    )
                     result = AUTH_FAILED
+                else:
+                    sig.rewind()
+                    if not key.verify_ssh_sig(blob, sig):
+                        self._log(INFO, "Auth rejected: invalid signature")
+                        result = AUTH_FAILED
         elif method == "keyboard-interactive":
             submethods = m.get_string()
             result = self.transport.server_object.check_auth_interactive(
